@@ -48,5 +48,8 @@ func TestSim(t *testing.T) {
 	}
 	code := sim.RunJob(&job, os.Stdout)
 	os.Stdout.Sync()
+	if code == 0 && os.Getenv("VERIF_COVER_DIR") != "" {
+		return // reach measurement: let the testing package write the coverage profile
+	}
 	os.Exit(code)
 }
